@@ -100,4 +100,20 @@ def ratPpf (loc scale p : Rat) : Rat := loc + scale * (p / (1 - p))
 
 def ratFam (loc scale : Rat) : Amounts := ⟨ratCdf loc scale, ratPpf loc scale⟩
 
+/-! ### the array forms (what the real `cdf` / `ppf` methods compute on a vector): element-wise maps.
+    `us` is the vector of draws `np.random.uniform(0, ·, x.shape)` — one per position, used only where the model says so -/
+
+def hurdleCdfL (A : Amounts) (p0 : Rat) (rand : Bool) (us xs : List Rat) : List Rat :=
+  List.zipWith (fun x u => hurdleCdf A p0 rand u x) xs us
+
+def hurdlePpfL (A : Amounts) (p0 : Rat) (qs : List Rat) : List Rat := qs.map (hurdlePpf A p0)
+
+def izCdfL (A : Amounts) (xs : List Rat) : List ERat := xs.map (izCdf A)
+
+def izPpfL (A : Amounts) (qs : List ERat) : List Rat := qs.map (izPpf A)
+
+def censArgL (thr : Rat) (us xs : List Rat) : List Rat := List.zipWith (fun x u => censArg thr u x) xs us
+
+def censPostL (thr : Rat) (censor : Bool) (vs : List Rat) : List Rat := vs.map (censPost thr censor)
+
 end Model.Precip
